@@ -72,13 +72,13 @@ package lease_set2
 //@ }
 
 // C14 (the statement itself): a LeaseSet2 the constructor returns without
-// error passes its own structural validation (any flags, one key, one lease,
-// no offline signature, empty options).
+// error passes its own structural validation (any flags, any offline
+// signature or none, one key, one lease, empty options).
 //@ option C14_LS2CtorValidates nocontract *
-//@ lemma C14_LS2CtorValidates(data []byte, published uint32, expires uint16, flags uint16, ek EncryptionKey, l lease.Lease2) {
+//@ lemma C14_LS2CtorValidates(data []byte, published uint32, expires uint16, flags uint16, off *offline_signature.OfflineSignature, ek EncryptionKey, l lease.Lease2) {
 //@   d, _, err := destination.ReadDestination(data)
 //@   assume(err == nil && len(data) <= 512)
-//@   ls2, e := NewLeaseSet2(d, published, expires, flags, nil, common.Mapping{}, []EncryptionKey{ek}, []lease.Lease2{l}, nil)
+//@   ls2, e := NewLeaseSet2(d, published, expires, flags, off, common.Mapping{}, []EncryptionKey{ek}, []lease.Lease2{l}, nil)
 //@   if e == nil {
 //@     assert((&ls2).Validate() == nil)
 //@   }
